@@ -283,6 +283,39 @@ pub fn g1_edge_points() -> &'static Vec<(String, BigUint, BigUint)> {
                 }
             }
         }
+        // plain limbs that tie with the limbs of p in some positions and differ in others (least significant limb first; None = walked until it lifts)
+        {
+            let pl = to_limbs(p);
+            let m = u64::MAX;
+            let ties: [(&str, [Option<u64>; 4]); 7] = [
+                ("limbs=[p0,>p1,*,<p3]", [Some(pl[0]), Some(pl[1] | 0xF000_0000_0000_0000), None, Some(pl[3] - 2)]),
+                ("limbs=[>p0,p1,*,<p3]", [Some(m), Some(pl[1]), None, Some(pl[3] - 1)]),
+                ("limbs=[p0,p1,p2,<p3]", [Some(pl[0]), Some(pl[1]), Some(pl[2]), None]),
+                ("limbs=[*,p1,p2,p3]", [None, Some(pl[1]), Some(pl[2]), Some(pl[3])]),
+                ("limbs=[M,<p1,p2,p3]", [Some(m), None, Some(pl[2]), Some(pl[3])]),
+                ("limbs=[0,0,*,p3]", [Some(0), Some(0), None, Some(pl[3])]),
+                ("limbs=[p0,p1,*,0]", [Some(pl[0]), Some(pl[1]), None, Some(0)]),
+            ];
+            for (label, pat) in ties.iter() {
+                for t in 0..4000u64 {
+                    let mut limbs = [0u64; 4];
+                    for i in 0..4 {
+                        limbs[i] = match pat[i] {
+                            Some(v) => v,
+                            None => pl[i].wrapping_sub(1 + t),
+                        };
+                    }
+                    let x = from_limbs(&limbs);
+                    if &x >= p {
+                        continue;
+                    }
+                    if let Some(y) = lift(&x) {
+                        push(label.to_string(), &x, &y);
+                        break;
+                    }
+                }
+            }
+        }
         let mut x = from_limbs(&[0x1234_5678_9abc_def0, 0x0fed_cba9_8765_4321, 0x1111_2222_3333_4444, 0x5555_6666_7777_8888]);
         for _ in 0..20_000 {
             if let Some(y) = lift(&x) {
